@@ -183,6 +183,7 @@ def buffer_semantics(cx, rep):
                                 bad = bad or (l, 'with the cursor at byte %d (%d-byte samples, %d channel(s)) position reads %r, not %d' % (k * sw * ch, sw, ch, got, k))
             rep.ob('position reads back the number of samples consumed', bad is None, W(g[2]), 'BufferAudioSource.position:getter', bad[1] if bad else None, sample=dict(operation='position (get)', grid_points=npts))
             bad = None
+            bad_rej = None
             npts = 0
             slv = dl(st_)
             spn = st_[2].args.args[1].arg
@@ -199,6 +200,14 @@ def buffer_semantics(cx, rep):
                             if idx < 0 or idx > n:
                                 if not (l.outcome == 'raise' and exc_name(l) == 'IndexError'):
                                     bad = bad or (l, '%s is out of range and must raise IndexError; outcome %s %s' % (what, l.outcome, exc_name(l) if l.outcome == 'raise' else ''))
+                                else:
+                                    # a rejected assignment leaves the cursor where it was: the next read continues from there
+                                    try:
+                                        moved = stores(l, evaluator(a, fields=fields), {cur_f}).get(cur_f)
+                                    except Undecided:
+                                        moved = None
+                                    if moved is not None and moved != 0:
+                                        bad_rej = bad_rej or (l, '%s is rejected with IndexError but has already moved the cursor to byte %r' % (what, moved))
                                 continue
                             if l.outcome == 'raise':
                                 bad = bad or (l, '%s is in range (sample %d) but raises %s' % (what, idx, exc_name(l)))
@@ -208,6 +217,8 @@ def buffer_semantics(cx, rep):
                                 bad = bad or (l, '%s puts the cursor at byte %r; sample %d is byte %d' % (what, newc, idx, idx * bps))
             rep.ob('position = v moves the cursor to sample v (v + length when negative); values outside 0..length raise IndexError', bad is None, W(bad[0].node) if bad and bad[0].node is not None else W(st_[2]),
                    'BufferAudioSource.position:setter', bad[1] if bad else None, sample=dict(operation='position (set)', grid_points=npts))
+            rep.ob('a position assignment that is rejected leaves the cursor unchanged (the source is still usable where it was)', bad_rej is None, W(bad_rej[0].node) if bad_rej and bad_rej[0].node is not None else W(st_[2]),
+                   'BufferAudioSource.position:rejected-assignment', bad_rej[1] if bad_rej else None)
             rep.floor('grid points of the position rules', npts, 100)
         except Undecided as exc:
             rep.unknown('BufferAudioSource.position: %s' % exc)
